@@ -336,7 +336,14 @@ func (r *replicator) processHash(ctx context.Context, item processItem) ([]cid.C
 		// that carries the multihash of a block it holds), so the same signed
 		// entry could otherwise be merged again and again under new addresses
 		canonical, err := r.store.IO().Write(ctx, r.store.IPFS(), e, nil)
-		if err != nil || !canonical.Equals(e.GetHash()) {
+		if err != nil {
+			// the check could not be made (the context has ended, the node
+			// refuses the write): that is not a verdict on the entry. The
+			// request has failed and is retried
+			return nil, fmt.Errorf("unable to check the address of entry %s: %w", e.GetHash().String(), err)
+		}
+
+		if !canonical.Equals(e.GetHash()) {
 			r.logger.Warn("ignoring an entry whose content does not hash to its address", zap.String("cid", e.GetHash().String()))
 			return nil, nil
 		}
